@@ -891,7 +891,13 @@ pub fn headers(bytes: &Bytes) -> Result<(HeaderMap, usize), Error> {
                     )
                     .ok()
                     .ok_or(Error::IllegalName)?;
-                    let value = HeaderValue::from_maybe_shared(bytes.slice(value_start..pos - 1))
+                    // Only strip a CR if there is one: the line may end in a bare LF.
+                    let value_end = if pos > 0 && bytes[pos - 1] == chars::CR {
+                        pos - 1
+                    } else {
+                        pos
+                    };
+                    let value = HeaderValue::from_maybe_shared(bytes.slice(value_start..value_end))
                         .ok()
                         .ok_or(Error::IllegalValue)?;
                     headers.insert(name, value);
